@@ -576,6 +576,20 @@ func c14Waves() []c14Wave {
 			return enc(p.Val)
 		}).Example(seed)
 	}})
+	// every controller-originated message kind: built and encoded (each construction draws a transaction id, which
+	// orders the goroutines' constructions with each other but not what they do afterwards: the first ENCODE of
+	// each kind still happens on 16 goroutines with nothing between them)
+	for _, k := range gen.MessageKinds {
+		k := k
+		ws = append(ws, c14Wave{"message:" + k, func(seed int) []byte {
+			return rapid.Custom(func(rt *rapid.T) []byte {
+				rapid.Bool().Draw(rt, "_")
+				m, _ := gen.New(rt, 300).MessageOf(k)
+				setXid(m, uint32(seed))
+				return enc(m)
+			}).Example(seed)
+		}})
+	}
 	// every switch-originated kind: a conformant frame from the model through Parse, re-encoded
 	for _, k := range gen.SwitchKinds {
 		k := k
